@@ -828,6 +828,47 @@ def check_block_sums(P, R, key, rule="ACC.sum"):
     return n
 
 
+def check_block_additive(P, R, key, rule="ACC.additive"):
+    """What a per-block task returns is pooled by adding it to the other blocks' results, so it must be a plain sum over the block's
+    samples.  A statistic that is clamped / floored / rounded *before* it leaves the block (`np.maximum(count, 1)`, `np.clip`, `np.where`
+    on its own value, `round`) is not additive: max(a, 1) + max(b, 1) != max(a + b, 1) as soon as one block has nothing for a class.
+    Decided on the returned expressions (tuple elements, fields stored on a returned statistics object), named steps followed."""
+    from ..dataflow import resolve_name
+    f, key = _site(P, key)
+    du = get_defuse(f, P)
+    CL = ("maximum", "minimum", "clip", "fmax", "fmin", "nan_to_num", "round", "rint", "around", "floor", "ceil", "where")
+    n = 0
+    vals = []
+    rets = [r for r in walk_no_nested(f.node) if isinstance(r, ast.Return) and r.value is not None]
+    for r in rets:
+        v = r.value
+        elts = list(v.elts) if isinstance(v, ast.Tuple) else [v]
+        for e in elts:
+            if isinstance(e, ast.Name):
+                # fields stored on the returned object
+                for st, t, val, k in stores(f):
+                    if isinstance(t, ast.Attribute) and isinstance(t.value, ast.Name) and t.value.id == e.id and val is not None and k == "assign":
+                        vals.append((t.attr, val, du.stmt_of(st)))
+            vals.append((src(e)[:30], e, r))
+    seen = set()
+    for nm, e, st in vals:
+        e2, st2 = resolve_name(du, e, st)
+        if id(e2) in seen:
+            continue
+        seen.add(id(e2))
+        n += 1
+        if isinstance(e2, ast.Call) and (e2.func.attr if isinstance(e2.func, ast.Attribute) else getattr(e2.func, "id", "")) in CL:
+            fn = e2.func.attr if isinstance(e2.func, ast.Attribute) else e2.func.id
+            # np.where(c, a, b) selecting between two sums by a data-independent condition is not this; a constant arm is
+            if fn == "where" and not any(isinstance(a, ast.Constant) for a in e2.args[1:]):
+                R.ok(rule, key, f"{nm} = {src(e2)[:50]}", "selection between two computed values", getattr(e2, "lineno", None), nontrivial=False)
+                continue
+            R.violation(rule, key, f"{nm} = {src(e2)[:60]}", f"the per-block statistic `{nm}` is passed through `{fn}` before it is returned: the blocks' results are pooled by addition, and a clamped / rounded partial result is not additive (a block that holds nothing of a class contributes the clamp value instead of zero), so the pooled statistic depends on how the samples are split into blocks", getattr(e2, "lineno", None))
+        else:
+            R.ok(rule, key, f"{nm} = {src(e2)[:50]}", "returned as computed (no clamp between the sum and the pooling)", getattr(e2, "lineno", None), nontrivial=False)
+    return n
+
+
 def check_accumulation_signs(P, R, key, rule="ACC.sum"):
     """Inside the loops of a function that builds sums (statistic sums, accumulators), every in-place update of a local that was
     allocated with zeros adds: `acc[...] += x`, never `-=` / `*=` / `/=`."""
